@@ -39,8 +39,8 @@ def cells() -> T.List[T.Tuple[str, str, str]]:
             continue
         if o == 'before' and r not in ('runstr', 'depfile'):
             continue            # a file object / an input must exist when it is named
-        if r == 'runfile' and w == 'run':
-            continue            # run_command() returns no file object
+        if r in ('runfile', 'cfgin', 'cmdin') and w == 'run':
+            continue            # run_command() returns no file object (and naming a generated input by string is deprecated)
         out.append((w, r, o))
     return out
 
@@ -55,11 +55,11 @@ def _writer(w: str, var: str, fn: str) -> str:
     if w == 'copy':
         return "%s = configure_file(input: 'in.txt', output: '%s', copy: true)" % (var, fn)
     if w == 'run':
-        return "run_command(sh, '-c', 'echo run > \"$0\"', bd / '%s', check: true)\n%s = bd / '%s'" % (fn, var, fn)
+        return "run_command(sh, '-c', 'echo run > \"$0\"', bd / '%s', check: true)" % fn
     raise AssertionError(w)
 
 
-def _reader(r: str, var: str, fn: str) -> str:
+def _reader(r: str, var: str, fn: str, prefix: str) -> str:
     if r == 'none':
         return ''
     if r == 'runstr':
@@ -72,7 +72,7 @@ def _reader(r: str, var: str, fn: str) -> str:
         return "configure_file(input: %s, output: '%s.cmdin', command: [sh, '-c', 'cat \"$0\" > \"$1\"', '@INPUT@', '@OUTPUT@'])" % (var, fn)
     if r == 'depfile':
         return ("configure_file(input: 'in.txt', output: '%s.dep', depfile: '%s.d', command: [sh, '-c', "
-                "'cp \"$0\" \"$1\"; echo \"$(basename \"$1\"): $3\" > \"$2\"', '@INPUT@', '@OUTPUT@', '@DEPFILE@', bd / '%s'])" % (fn, fn, fn))
+                "'cp \"$0\" \"$1\"; echo \"$(basename \"$1\"): $3\" > \"$2\"', '@INPUT@', '@OUTPUT@', '@DEPFILE@', bd / '%s'])" % (fn, prefix + fn, fn))
     raise AssertionError(r)
 
 
@@ -81,7 +81,7 @@ def _grid(prefix: str, only: T.Optional[T.Sequence[T.Tuple[str, str, str]]]) -> 
     for w, r, o in (cells() if only is None else only):
         cid = '%s_%s_%s' % (w, r, o)
         fn, var = cid + '.txt', prefix + cid
-        ws, rs = _writer(w, var, fn), _reader(r, var, fn)
+        ws, rs = _writer(w, var, fn), _reader(r, var, fn, prefix)
         lines += [rs, ws] if o == 'before' else [ws, rs]
         # outputs written by meson itself (held to the "not touched when unchanged" clause); the others are written by
         # the project's own commands, which rewrite them on every configuration
@@ -92,17 +92,18 @@ def _grid(prefix: str, only: T.Optional[T.Sequence[T.Tuple[str, str, str]]]) -> 
     return [l for l in lines if l], owned
 
 
-def bdio_project(lang: T.Optional[str] = None, only: T.Optional[T.Sequence[T.Tuple[str, str, str]]] = None
-                 ) -> T.Tuple[T.Dict[str, str], T.List[str]]:
+def bdio_project(lang: T.Optional[str] = None, only: T.Optional[T.Sequence[T.Tuple[str, str, str]]] = None,
+                 subgrid: bool = True) -> T.Tuple[T.Dict[str, str], T.List[str]]:
     """-> (files, build-dir relative paths of the configure-time outputs that meson itself writes)"""
     top, owned_top = _grid('r_', only)
-    sub, owned_sub = _grid('s_', only)
+    sub, owned_sub = _grid('s_', only) if subgrid else ([], [])
     head = ["project('bdio'%s, meson_version: '>=1.0')" % (", '%s'" % lang if lang else ''), "sh = find_program('sh')"]
     files = {'in.txt': 'x\n', 'sub/in.txt': 'y\n'}
     tail = []
     if lang == 'c':
-        files['main.c'] = '#include "cfg_none_after.txt"\nint lf(void); int main(void) { return lf(); }\n'
+        files['main.c'] = '#include "conf.h"\nint lf(void); int main(void) { return lf(); }\n'
         files['sub/l.c'] = 'int lf(void) { return 0; }\n'
+        head.append("configure_file(output: 'conf.h', configuration: {'CONF': 1})")
         tail = ["executable('e', 'main.c', link_with: l, include_directories: include_directories('.', 'sub'))"]
         sub = sub + ["l = static_library('l', 'l.c')"]
     files['meson.build'] = '\n'.join(head + ['bd = meson.current_build_dir()'] + top + ["subdir('sub')"] + tail) + '\n'
